@@ -10,6 +10,11 @@ Thorough: the complete finite space below (16 processes).  Quick: one lemma per 
 plus a 2 % sample.  A separate stream exercises `bestMatch` on synthetic tables, and a malformed stream unknown
 lemmas, wrong parts of speech, illegal option values / receivers, `.maje()`, repeated options.
 
+Two metamorphic strata on the implementation (reference = its own monolingual, fresh form): `lang` — the same request
+built with an explicit lang= while the OTHER language is current, and built at home then realized after the other
+language was loaded, must give the same form and the same presence of warnings; `clone` — options given to a clone
+of a word change neither the original nor make the clone differ from a fresh word with those options.
+
 Oracle (independent of the Lean model): the declarative reading of the property recomputed in Python from the rules
 JSON — request derivation by priority lists, score by sums, first arg-max by `max` — and compared with what the
 implementation printed.
@@ -46,7 +51,8 @@ META = {
             "was raised, counted once per (language, type, table, combination, answer)",
     "assumptions": ["A_noelision: doElision and the formatting steps of doFormat are the identity on the token lists "
                     "decline() returns for a stand-alone terminal without formatting options",
-                    "A_curlang: the current language equals the terminal's language during construction and realization",
+                    "A_curlang: the MODEL is run with current language = terminal's language; that the current language "
+                    "does not matter is checked on the implementation by the `lang` stratum (model-free)",
                     "lexicon entries carry no key named maje/poss/cap/tag/a/b/en/ba/lier (checked on every run)"],
     "trusted": ["Constituent.warn wrapped from outside to count calls (real warn() and its stderr line exercised on a sample)"],
 }
@@ -438,6 +444,206 @@ def run_chunk(args):
     return res
 
 
+# --------------------------------------------------------------------------------------------- metamorphic strata
+# The declined form belongs to the word: it depends neither on the language that happens to be current (stratum
+# `lang`) nor on what is done to a clone of the word (stratum `clone`).  Reference = the monolingual, fresh form of
+# the implementation itself (impl_one), which the sweep above ties to the model and to the oracle.
+
+def realize_obj(t):
+    terms = t.real()
+    toks = [x.realization for x in terms]
+    text = t.detokenize(terms)
+    if not all(isinstance(x, str) for x in toks) or not isinstance(text, str):
+        return {"err": "non-string realization"}
+    return {"toks": toks, "text": text, "w": Impl.cnt[0]}
+
+
+def impl_lang(lang, pos, lemma, combo, mode):
+    """mode `explicit`: pos(lemma, lang) built and realized while the OTHER language is current;
+    mode `switched`: built under its own language, realized after the other language was loaded"""
+    other = "fr" if lang == "en" else "en"
+    Impl.cnt[0] = 0
+    try:
+        if mode == "explicit":
+            Impl.load[other]()
+            t = Impl.cons[pos](lemma, lang)
+            for name, val in combo:
+                getattr(t, name)(val)
+        else:
+            Impl.load[lang]()
+            t = Impl.cons[pos](lemma)
+            for name, val in combo:
+                getattr(t, name)(val)
+            Impl.load[other]()
+        return realize_obj(t)
+    except core.Infra:
+        raise
+    except Exception as e:  # noqa
+        return {"err": type(e).__name__}
+    finally:
+        Impl.load[lang]()
+
+
+def impl_clone(lang, pos, lemma, base, extra, clone_first):
+    """w = pos(lemma).base ; c = w.clone().extra ; both realized (order by `clone_first`) -> (form of w, form of c)"""
+    Impl.load[lang]()
+    try:
+        w = Impl.cons[pos](lemma)
+        for name, val in base:
+            getattr(w, name)(val)
+        c = w.clone()
+        for name, val in extra:
+            getattr(c, name)(val)
+        res = {}
+        for who in (("c", "w") if clone_first else ("w", "c")):
+            Impl.cnt[0] = 0
+            try:
+                res[who] = realize_obj(c if who == "c" else w)
+            except core.Infra:
+                raise
+            except Exception as e:  # noqa
+                res[who] = {"err": type(e).__name__}
+        return res["w"], res["c"]
+    except core.Infra:
+        raise
+    except Exception as e:  # noqa
+        return {"err": type(e).__name__}, {"err": type(e).__name__}
+
+
+def same_form(a, ref):
+    """same tokens, same text, same presence of warnings (or the same exception)"""
+    if "err" in a or "err" in ref:
+        return a.get("err") == ref.get("err")
+    return a["toks"] == ref["toks"] and a["text"] == ref["text"] and (a["w"] > 0) == (ref["w"] > 0)
+
+
+def brief(a):
+    return a.get("err") or "%r%s" % (a["text"], " +warning" if a["w"] else "")
+
+
+def run_meta_chunk(args):
+    """worker for the two metamorphic strata: items ("lang", lang, pos, lemma, combos) or
+    ("clone", lang, pos, lemma, [(base, extra), …])"""
+    items = args
+    impl_setup()
+    load_data()
+    Impl.realwarn = False
+    res = {"n": 0, "fails": [], "digests": set(), "dist": {}, "samples": []}
+    for it in items:
+        kind, lang, pos, lemma = it[:4]
+        ent = Data.lex[lang].get(norm(lemma))
+        tab = ent[pos].get("tab") if isinstance(ent, dict) and isinstance(ent.get(pos), dict) else None
+        if kind == "lang":
+            for combo in it[4]:
+                ref = impl_one(lang, pos, lemma, combo)
+                for mode in ("explicit", "switched"):
+                    a = impl_lang(lang, pos, lemma, combo, mode)
+                    res["n"] += 1
+                    res["dist"]["lang-" + mode] = res["dist"].get("lang-" + mode, 0) + 1
+                    if ref.get("text") != lemma:
+                        res["digests"].add(hashlib.md5(core.canon(["lang", mode, lang, pos, tab, combo, a]).encode()).digest())
+                    if not same_form(a, ref):
+                        res["fails"].append((signature(lang, pos, lemma, combo, "other-language-current-" + mode),
+                                             {"op": "lang", "mode": mode, "lang": lang, "pos": pos, "lemma": lemma, "combos": [combo]},
+                                             "%s(%r, %r) %s while %s is current: %s; alone: %s" % (
+                                                 pos, lemma, lang, "built and realized" if mode == "explicit" else "realized",
+                                                 "fr" if lang == "en" else "en", brief(a), brief(ref))))
+                    if not res["samples"]:
+                        res["samples"].append(({"op": "lang", "mode": mode, "lang": lang, "pos": pos, "lemma": lemma, "combos": [combo]}, a))
+        else:
+            for i, (base, extra) in enumerate(it[4]):
+                ref_w = impl_one(lang, pos, lemma, base)
+                ref_c = impl_one(lang, pos, lemma, base + extra)
+                aw, ac = impl_clone(lang, pos, lemma, base, extra, clone_first=(i % 2 == 0))
+                res["n"] += 1
+                res["dist"]["clone"] = res["dist"].get("clone", 0) + 1
+                if ref_w.get("text") != ref_c.get("text"):
+                    res["digests"].add(hashlib.md5(core.canon(["clone", lang, pos, tab, base, extra, aw, ac]).encode()).digest())
+                inp = {"op": "clone", "lang": lang, "pos": pos, "lemma": lemma, "base": base, "extra": extra,
+                       "clone_first": (i % 2 == 0)}
+                if not same_form(aw, ref_w):
+                    res["fails"].append((signature(lang, pos, lemma, base, "clone-leaks-into-original") + "|" +
+                                         ",".join(k for k, _ in extra), inp,
+                                         "original realizes %s after its clone received %r; a fresh one: %s" % (brief(aw), extra, brief(ref_w))))
+                if not same_form(ac, ref_c):
+                    res["fails"].append((signature(lang, pos, lemma, base + extra, "clone-wrong-form"), inp,
+                                         "clone realizes %s; a fresh word with the same options: %s" % (brief(ac), brief(ref_c))))
+    if len(res["fails"]) > 300:
+        seen = {}
+        for f in res["fails"]:
+            seen.setdefault(f[0], f)
+        res["fails"] = list(seen.values())
+    return res
+
+
+def run_any(item):
+    return (item[0], run_chunk(item[1]) if item[0] == "corr" else run_meta_chunk(item[1]))
+
+
+def gen_meta(ctx, full):
+    """items of the strata `lang` and `clone` (quick: the per-table representatives with sampled combinations;
+    thorough: every A, Adv, D, Pro lemma and a 10 % sample of the nouns for `lang`; a wide sample for `clone`)"""
+    rng = ctx.rng
+    items = []
+    scope = {}
+    ext = {"N": [[["n", "p"]], [["g", "f"]], [["n", "p"], ["g", "f"]], [["n", "s"]]],
+           "A": [[["f", "co"]], [["f", "su"]], [["g", "f"], ["n", "p"]], [["n", "p"]], [["f", "su"], ["g", "f"]]],
+           "Adv": [[["f", "co"]], [["f", "su"]]],
+           "D": [[["n", "p"]], [["g", "f"]], [["pe", 2]], [["ow", "p"]], [["pe", 1], ["ow", "p"]], [["pe", 3], ["g", "f"], ["n", "p"]]],
+           "Pro": [[["pe", 3], ["n", "p"]], [["g", "f"]], [["tn", "refl"]], [["c", "acc"]], [["c", "nom"]], [["ow", "p"]],
+                   [["pe", 2], ["c", "dat"]], [["n", "p"], ["tn", ""]], [["pe", 3], ["g", "f"], ["n", "p"]]]}
+    bases = {"N": [[], [["n", "s"]], [["g", "m"]]], "A": [[], [["g", "m"]], [["f", "co"]]], "Adv": [[]],
+             "D": [[], [["pe", 1]], [["pe", 1], ["n", "s"]], [["ow", "s"], ["pe", 3]]],
+             "Pro": [[], [["pe", 1]], [["pe", 2]], [["pe", 3], ["g", "f"]], [["pe", 1], ["c", "nom"]]]}
+    for lang in LANGS:
+        for pos in POSES:
+            groups = lemma_strata(lang, pos)
+            reps, others = [], []
+            for key in sorted(groups, key=repr):
+                first = rng.choice(groups[key])
+                reps.append(first)
+                others += [l for l in groups[key] if l != first]
+            combos = COMBOS[combos_key(lang, pos)]
+            # --- lang
+            if full:
+                lemmas = reps + (others if pos != "N" else [l for l in others if rng.random() < 0.10])
+            else:
+                lemmas = reps + [l for l in others if rng.random() < 0.005]
+            klang = None if (pos in ("A", "Adv", "N") or (full and pos == "D")) else (600 if full else 40)
+            nlang = 0
+            for l in lemmas:
+                cs = combos if klang is None or len(combos) <= klang else rng.sample(combos, klang)
+                items.append(("lang", lang, pos, l, cs))
+                nlang += len(cs)
+            # --- clone
+            lem_c = reps + [l for l in others if rng.random() < (0.03 if full else 0.003)]
+            if full and pos in ("D", "Pro"):
+                lem_c = reps + others
+            npairs = 0
+            for l in lem_c:
+                pairs = [(b, e) for b in bases[pos] for e in ext[pos]]
+                if not full and len(pairs) > 12:
+                    pairs = rng.sample(pairs, 12)
+                items.append(("clone", lang, pos, l, pairs))
+                npairs += len(pairs)
+            scope["%s,%s" % (lang, pos)] = "lang: %d lemmas, %d forms x 2 modes; clone: %d lemmas, %d (base, change) pairs" % (
+                len(lemmas), nlang, len(lem_c), npairs)
+    return items, scope
+
+
+def meta_chunks(items, size):
+    out, cur, n = [], [], 0
+    for it in items:
+        cur.append(it)
+        n += len(it[4]) * (3 if it[0] == "lang" else 4)
+        if n >= size:
+            out.append(cur)
+            cur, n = [], 0
+    if cur:
+        out.append(cur)
+    return out
+
+
 # --------------------------------------------------------------------------------------------- generation
 
 def lemma_strata(lang, pos):
@@ -718,13 +924,29 @@ def run(ctx, deep=False):
         if ctx.rng.random() < 0.03:
             work[i] = (work[i][0], ctx.driver, True, True)
     work += [(c, ctx.driver, True, False) for c in chunks(mal, 4000)]
+    work = [("corr", w) for w in work]
+    meta_items, meta_scope = gen_meta(ctx, full)
+    ctx.rng.shuffle(meta_items)
+    work += [("meta", c) for c in meta_chunks(meta_items, 6000)]
     tot = {"n": 0, "nontrivial": 0, "warned": 0, "errs": 0, "oracle_checked": 0}
     dist = {}
     unusable = []
+    meta_n = {}
     nproc = min(16, max(1, len(work)))
     mpctx = multiprocessing.get_context("fork")
     with mpctx.Pool(nproc) as pool:
-        for res in pool.imap_unordered(run_chunk, work, chunksize=1):
+        for kind_, res in pool.imap_unordered(run_any, work, chunksize=1):
+            if kind_ == "meta":
+                for k, v in res["dist"].items():
+                    meta_n[k] = meta_n.get(k, 0) + v
+                ctx.distinct.update(res["digests"])
+                ctx.cov["evaluations"] += res["n"]
+                for (l, a) in res["samples"]:
+                    if len(ctx.cov["samples"]) < 12:
+                        ctx.cov["samples"].append({"line": l, "answer": a})
+                for (sig, inp, detail) in res["fails"]:
+                    ctx.fail(sig, inp, detail)
+                continue
             for k in tot:
                 tot[k] += res[k]
             for k, v in res["dist"].items():
@@ -753,6 +975,7 @@ def run(ctx, deep=False):
                              "first_failing": sorted(unusable)[:10]}
     ctx.notes["distribution(lang,pos)"] = dist
     ctx.notes["malformed_stream_lines"] = len(mal)
+    ctx.notes["metamorphic_strata"] = {"checked": meta_n, "scope": meta_scope}
     ctx.notes["correspondence_wall_s"] = round(time.time() - t0, 1)
 
 
@@ -770,6 +993,18 @@ def replay(path):
     load_data()
     impl_setup()
     Impl.realwarn = False
+    if line.get("op") == "lang":
+        for combo in line["combos"]:
+            print(json.dumps({"input": line, "other_language_current": impl_lang(line["lang"], line["pos"], line["lemma"], combo, line["mode"]),
+                              "alone": impl_one(line["lang"], line["pos"], line["lemma"], combo)}, ensure_ascii=False))
+        return 0
+    if line.get("op") == "clone":
+        aw, ac = impl_clone(line["lang"], line["pos"], line["lemma"], line["base"], line["extra"], line.get("clone_first", True))
+        print(json.dumps({"input": line, "original_after_clone_changed": aw, "clone": ac,
+                          "fresh_original": impl_one(line["lang"], line["pos"], line["lemma"], line["base"]),
+                          "fresh_with_change": impl_one(line["lang"], line["pos"], line["lemma"], line["base"] + line["extra"])},
+                         ensure_ascii=False))
+        return 0
     if line.get("op") == "bestmatch":
         Impl.load["en"]()
         print(json.dumps(impl_bestmatch(line, Impl.cons["N"]("cat")), ensure_ascii=False))
